@@ -16,6 +16,8 @@ import (
 	"testing"
 	"time"
 
+	"github.com/nuts-foundation/nuts-node/core"
+	httpengine "github.com/nuts-foundation/nuts-node/http"
 	"github.com/nuts-foundation/nuts-node/http/client"
 	"verif/lib/ev"
 )
@@ -49,6 +51,68 @@ func chainClasses() []outURL {
 	)
 }
 
+var directN, sampledDirect int
+var directSamples []any // handed to the evidence by TestCheck after the configurations' samples
+
+// directBattery sends every class with every constructor and method through clients made AFTER the package was switched (as the
+// engines of a node make theirs after the HTTP engine was configured) and judges what left them.
+func directBattery(r *ev.Run, rec *recorder, strict bool, setting string, classes []outURL, w map[string]any) {
+	ctors := []struct {
+		name string
+		mk   func() *client.StrictHTTPClient
+	}{
+		{"client.New", func() *client.StrictHTTPClient { return client.New(10 * time.Second) }},
+		{"client.NewWithCache", func() *client.StrictHTTPClient { return client.NewWithCache(10 * time.Second) }},
+		{"client.NewWithTLSConfig", func() *client.StrictHTTPClient {
+			return client.NewWithTLSConfig(10*time.Second, &tls.Config{InsecureSkipVerify: true})
+		}},
+	}
+	for _, ct := range ctors {
+		for _, method := range []string{http.MethodGet, http.MethodPost} {
+			for _, cl := range classes {
+				directN++
+				target := strings.Replace(cl.URL, "TOKEN", fmt.Sprintf("d%d", directN), 1)
+				m := rec.mark()
+				var err error
+				func() {
+					defer func() {
+						if p := recover(); p != nil {
+							err = fmt.Errorf("panic: %v", p)
+						}
+					}()
+					var req *http.Request
+					if method == http.MethodPost {
+						req, err = http.NewRequest(method, target, strings.NewReader("grant_type=verif"))
+					} else {
+						req, err = http.NewRequest(method, target, nil)
+					}
+					if err != nil {
+						return
+					}
+					var resp *http.Response
+					resp, err = ct.mk().Do(req)
+					if err == nil {
+						resp.Body.Close()
+					}
+				}()
+				via := fmt.Sprintf("%s/%s/%s", ct.name, method, setting)
+				p := ledgerLine{Ev: "probe", Probe: "outbound", Class: cl.Class, Via: via, URL: target, Err: errStr(err), OK: err == nil, Attempts: rec.since(m)}
+				r.Case(fmt.Sprintf("direct/%v/%s/%s", strict, via, cl.Class), true)
+				r.Count("outbound_direct_cases", 1)
+				wit := map[string]any{"probe": p, "strictmode": strict}
+				for k, v := range w {
+					wit[k] = v
+				}
+				evaluateOutbound(r, "direct", strict, p, wit)
+				if sampledDirect < 2 && cl.Class == "https-2hops-to-http" && method == http.MethodGet && (sampledDirect == 0) == strict {
+					sampledDirect++
+					directSamples = append(directSamples, map[string]any{"outcome": "outbound", "strictmode": strict, "via": via, "class": cl.Class, "url": target, "error": p.Err, "requests_that_left_the_client": p.Attempts})
+				}
+			}
+		}
+	}
+}
+
 func outboundDirect(t *testing.T, r *ev.Run) {
 	rec := &recorder{}
 	remoteWorld(rec)
@@ -57,8 +121,6 @@ func outboundDirect(t *testing.T, r *ev.Run) {
 		client.DefaultCachingTransport = client.SafeHttpTransport
 	}()
 	classes := append(outboundClasses(), chainClasses()...)
-	n := 0
-	sampledDirect := 0
 	for _, strict := range []bool{true, false} {
 		for _, cache := range []bool{false, true} {
 			client.StrictMode = strict
@@ -67,58 +129,78 @@ func outboundDirect(t *testing.T, r *ev.Run) {
 			} else {
 				client.DefaultCachingTransport = client.SafeHttpTransport
 			}
-			ctors := []struct {
-				name string
-				mk   func() *client.StrictHTTPClient
-			}{
-				{"client.New", func() *client.StrictHTTPClient { return client.New(10 * time.Second) }},
-				{"client.NewWithCache", func() *client.StrictHTTPClient { return client.NewWithCache(10 * time.Second) }},
-				{"client.NewWithTLSConfig", func() *client.StrictHTTPClient {
-					return client.NewWithTLSConfig(10*time.Second, &tls.Config{InsecureSkipVerify: true})
-				}},
-			}
-			for _, ct := range ctors {
-				for _, method := range []string{http.MethodGet, http.MethodPost} {
-					for _, cl := range classes {
-						n++
-						target := strings.Replace(cl.URL, "TOKEN", fmt.Sprintf("d%d", n), 1)
-						m := rec.mark()
-						var err error
-						func() {
-							defer func() {
-								if p := recover(); p != nil {
-									err = fmt.Errorf("panic: %v", p)
-								}
-							}()
-							var req *http.Request
-							if method == http.MethodPost {
-								req, err = http.NewRequest(method, target, strings.NewReader("grant_type=verif"))
-							} else {
-								req, err = http.NewRequest(method, target, nil)
-							}
-							if err != nil {
-								return
-							}
-							var resp *http.Response
-							resp, err = ct.mk().Do(req)
-							if err == nil {
-								resp.Body.Close()
-							}
-						}()
-						via := fmt.Sprintf("%s/%s/cache=%v", ct.name, method, cache)
-						p := ledgerLine{Ev: "probe", Probe: "outbound", Class: cl.Class, Via: via, URL: target, Err: errStr(err), OK: err == nil, Attempts: rec.since(m)}
-						r.Case(fmt.Sprintf("direct/%v/%s/%s", strict, via, cl.Class), true)
-						r.Count("outbound_direct_cases", 1)
-						evaluateOutbound(r, "direct", strict, p, map[string]any{"probe": p, "strictmode": strict, "cache": cache})
-						if sampledDirect < 2 && cl.Class == "https-2hops-to-http" && method == http.MethodGet && (sampledDirect == 0) == strict {
-							sampledDirect++
-							r.Sample(map[string]any{"outcome": "outbound", "strictmode": strict, "via": via, "class": cl.Class, "url": target, "error": p.Err, "requests_that_left_the_client": p.Attempts})
-						}
-					}
-				}
-			}
+			directBattery(r, rec, strict, fmt.Sprintf("cache=%v", cache), classes, map[string]any{"cache": cache})
 		}
 	}
+	// same fake remote hosts and recorder: the transport keeps connections to them alive
+	outboundEngineConfigured(r, rec, classes)
+}
+
+// outboundEngineConfigured: the same battery, but the clients are switched the way a node switches them - by Configure of the real HTTP
+// engine, from the (strictmode, http.cache.maxbytes, http.log, ...) it was given. Before each Configure the package is put into the state
+// it has in a process that has just started (strict mode off, no cache), so what is observed is what a node with that configuration would
+// do, not what an earlier configuration left behind. The engine is only configured, never started: no listener is opened.
+func outboundEngineConfigured(r *ev.Run, rec *recorder, classes []outURL) {
+	sizes := []int{0, 1, 10 << 20}
+	if r.Thorough() {
+		sizes = append(sizes, -1, 2, 4096, 1<<31-1)
+	}
+	rnd := r.Rand("engine-configured")
+	for _, strict := range []bool{true, false} {
+		for _, size := range sizes {
+			client.StrictMode = false
+			client.DefaultCachingTransport = client.SafeHttpTransport
+			engine := httpengine.New(func() {}, nil)
+			cfg := engine.Config().(*httpengine.Config)
+			cfg.ResponseCacheSize = size
+			cfg.Internal.Address, cfg.Public.Address = "127.0.0.1:0", "127.0.0.1:1"
+			// further settings of the same engine, none of which has to do with the outbound clients (seeded)
+			cfg.Log = []httpengine.LogLevel{httpengine.LogNothingLevel, httpengine.LogMetadataLevel, httpengine.LogMetadataAndBodyLevel}[rnd.Intn(3)]
+			cfg.ClientIPHeaderName = []string{"X-Forwarded-For", "", "X-Real-IP"}[rnd.Intn(3)]
+			sc := core.ServerConfig{Strictmode: strict, InternalRateLimiter: rnd.Intn(2) == 0, DIDMethods: [][]string{{"web"}, {"web", "nuts"}, {"nuts"}}[rnd.Intn(3)]}
+			setting := fmt.Sprintf("engine-configured/http.cache.maxbytes=%s", sizeClass(size))
+			w := map[string]any{"http_engine_config": *cfg, "server_config_strictmode": strict, "didmethods": sc.DIDMethods}
+			var cerr error
+			func() {
+				defer func() {
+					if p := recover(); p != nil {
+						cerr = fmt.Errorf("panic: %v", p)
+					}
+				}()
+				cerr = engine.Configure(sc)
+			}()
+			if cerr != nil {
+				r.Case(fmt.Sprintf("engine-configure/%v/%d", strict, size), false)
+				if strings.HasPrefix(cerr.Error(), "panic:") {
+					r.Violation("C20/panic/http.Engine.Configure", cerr.Error(), w)
+				} else {
+					r.Inconclusive("HTTP engine could not be configured: " + cerr.Error())
+				}
+				continue
+			}
+			r.Case(fmt.Sprintf("engine-configure/%v/%d", strict, size), true)
+			r.Distinct("engine_configured_settings", fmt.Sprintf("strict=%v/%s", strict, sizeClass(size)))
+			if client.StrictMode != strict {
+				mode := map[bool]string{true: "strict", false: "nonstrict"}[strict]
+				r.Violation("C20/http-client-strictmode-mismatch/engine-configured/"+mode+"/http.cache.maxbytes="+sizeClass(size),
+					fmt.Sprintf("HTTP engine configured with strictmode=%v and http.cache.maxbytes=%d, but the HTTP client package has StrictMode=%v", strict, size, client.StrictMode), w)
+			}
+			directBattery(r, rec, strict, setting, classes, w)
+		}
+	}
+}
+
+// sizeClass names a cache size for violation keys.
+func sizeClass(n int) string {
+	switch {
+	case n < 0:
+		return "negative"
+	case n == 0:
+		return "0"
+	case n < 1<<20:
+		return "tiny"
+	}
+	return "large"
 }
 
 // TestOne runs a single hand-written configuration (debugging aid): VERIF_C20_ONE='{"Args":[...],"Env":{...},"Yaml":"..."}'
